@@ -377,13 +377,15 @@ class PARSE_SEQ_ARGS:
         {"collect_length": _EXCL_LEN.format(k="len(value)"), "collect_is_filter_map": _EXCL_EL.format(k="len(value)"),
          "one_error_per_offender": _ERRS_COUNT.format(k="len(value)")})
     returns = {"fresh_result": "fresh(result)"}
-    raises_by_case = {cn: {"ParseError": {"only_on_an_offender": "exists(len(value), lambda i: not ok(value, %s, context, i))" % _T0}}
-                      for cn in _seq_cases() if cn.endswith("fail-fast")}
+    raises_by_case = {cn: ({"ParseError": {"only_on_an_offender": "exists(len(value), lambda i: not ok(value, %s, context, i))" % _T0}}
+                           if cn.endswith("fail-fast") else
+                           {"Exception": {"policy_handles_every_offender": "False"}} if cn.split(",")[1] in ("exclude", "preserve") else {})
+                      for cn in _seq_cases()}
     only_raises = ["ParseError"]
     frame = ["value", "cls"]
     modifies = ["context.errors"]
     tags = {"fresh_result": ["C19", "C11"], "no_error_recorded": ["C10", "C11"], "one_error_per_offender": ["C10", "C11"],
-            "only_raises": ["C04"], "no_input_mutation": ["C19", "C11"]}
+            "only_raises": ["C04"], "no_input_mutation": ["C19", "C11"], "Exception.policy_handles_every_offender": ["C11"]}
 
 
 def _seq_inv():
